@@ -207,7 +207,21 @@ func runReplayFull(rp *Replay) ReplayResult {
 	if !did {
 		return res
 	}
+	compileFailed := false
+	if ob, err := os.ReadFile(filepath.Join(rp.Dir, "observed.json")); err == nil {
+		var o struct {
+			S2OK map[string]bool `json:"s2ok"`
+		}
+		if json.Unmarshal(ob, &o) == nil {
+			for _, v := range o.S2OK {
+				if !v {
+					compileFailed = true
+				}
+			}
+		}
+	}
 	res2 := runReplay(rp)
+	res2.CompileFailed = compileFailed
 	res2.Output = "--- pass A (recorded outcomes) ---\n" + res.Output + "\n--- pass A' (observed outcomes of the real generated code) ---\n" + res2.Output
 	_ = os.WriteFile(filepath.Join(rp.Dir, "output.txt"), []byte(res2.Output+"\n"+res2.Detail+"\n"), 0o644)
 	return res2
